@@ -1232,6 +1232,19 @@ func (e *Env) evalCall(n SCall) Val {
 			}
 			gh := x.heapGet(e.st, "GH_hashed", "(Array Int String)")
 			return Val{T: Select(gh, Term{fmt.Sprintf("(ival %s)", h.T.S), "Int"}), Typ: types.Typ[types.String]}
+		case "ownCopy":
+			// ownCopy(v): the slice held in local variable v has a backing array that this function
+			// allocated itself (make, append to a nil literal, io.ReadAll): it is shared with nobody,
+			// in particular not with a caller's buffer. Decided from the provenance of the value on this path.
+			id, ok := n.Args[0].(SIdent)
+			if !ok {
+				return e.fail("ownCopy() needs the name of a local variable")
+			}
+			v, ok := e.localByName(id.Name)
+			if !ok {
+				return e.fail("ownCopy(%s): no such local", id.Name)
+			}
+			return Val{T: BoolLit(v.Fresh), Typ: types.Typ[types.Bool]}
 		case "built":
 			// built(b): the text written so far to the strings.Builder held in the local or captured variable b
 			id, ok := n.Args[0].(SIdent)
